@@ -24,8 +24,18 @@ def main(tier, seed):
     if tier != "quick":
         jobs += [(T, dict(n=3, m=2)), (T, dict(n=4, m=2, nsym=1, seed=seed)), (T, dict(n=2, m=3, nsym=2, seed=seed)),
                  (T, dict(n=4, m=4, nsym=1, seed=seed)), (T, dict(n=5, m=3, nsym=1, seed=seed))]
+    # results of runs that redefine the objective on the fly also carry hess_inv: positive curvature of its pairs
+    RW = "harness.orch_rel:c13_rewrite"
+    jobs.append((RW, dict(K=3, ls_mode="unit", at=3, maxcor=3)))
     exs = driver.explore_many(jobs, time_limit=900 if tier == "quick" else 3600, timeout_ms=60000)
     for ex in exs:
+        if ex.target == RW:
+            ex.candidates = [c for c in ex.candidates if c["name"].startswith("C18.")]
+            chk.add(ex)
+            if ex.candidates:
+                from . import rel_common
+                rel_common.confirm(chk, ex, "scenario_update", lambda p, m: dict(K=3, at=p.get("at", 3), maxcor=p.get("maxcor", 3)))
+            continue
         chk.add(ex)
         for name in sorted({c["name"] for c in ex.candidates}):
             cands = [c for c in ex.candidates if c["name"] == name][:4]
